@@ -72,14 +72,7 @@ def guarded(fn, seconds=INPUT_WATCHDOG_S):
     raised in fn when it has used `seconds` of processor time.  Processor time, because other jobs on the machine must
     not turn a reader that needs a second into one that 'does not terminate'; a reader that waits without computing is
     left to the outer watchdog."""
-    import signal
-    old = signal.signal(signal.SIGPROF, env._alarm)
-    signal.setitimer(signal.ITIMER_PROF, seconds)
-    try:
-        return fn()
-    finally:
-        signal.setitimer(signal.ITIMER_PROF, 0)
-        signal.signal(signal.SIGPROF, old)
+    return env.with_cpu_watchdog(fn, seconds)
 
 
 def _deeper(fn, frames=60):
